@@ -306,6 +306,9 @@ VARIANTS += [
     V("twin-add-interval-ends", ["C08"], C, "        if self.knotvector.limits != other.knotvector.limits:\n            raise ValueError\n        if self.weights is None and other.weights is None:\n            vecta, vectb = tuple(self.knotvector), tuple(other.knotvector)\n            matra, matrb = heavy.MathOperations.add_spline_curve(vecta, vectb)", "        if tuple(self.knotvector.limits) != tuple(other.knotvector.limits):\n            raise ValueError\n        if self.weights is None and other.weights is None:\n            vecta, vectb = tuple(self.knotvector), tuple(other.knotvector)\n            matra, matrb = heavy.MathOperations.add_spline_curve(vecta, vectb)", None, None, "limits compared as tuples", twin=True),
     V("error-short-form-constrained", ["C05", "C11"], H, "        E = (FF - 2 * np.dot(T.T, GF) + np.dot(T.T, np.dot(GG, T))) / 2\n", "        E = (FF - np.dot(T.T, GF)) / 2\n", "ERROR-QUADRATIC", "func2func", "short error formula used with the constrained T"),
     V("twin-error-residual-form", ["C05", "C11"], H, "        E = (FF - 2 * np.dot(T.T, GF) + np.dot(T.T, np.dot(GG, T))) / 2\n", "        residual = GF - np.dot(GG, T)\n        E = (FF - np.dot(T.T, GF) - np.dot(T.T, residual)) / 2\n", None, None, "quadratic form written with the residual of the normal equations", twin=True),
+    V("decrease-nodes-of-old", ["C14", "C06"], C, "        newknotvec = copy(self.knotvector)\n        newknotvec.degree -= times\n        knots = newknotvec.knots if newknotvec.degree != 0 else None\n", "        knots = self.knots if times < self.degree else None\n        newknotvec = copy(self.knotvector)\n        newknotvec.degree -= times\n", "NODES-OF-NEW", "degree_decrease", "interpolation nodes are the knots of the old vector"),
+    V("decrease-nodes-before-lowering", ["C14", "C06"], C, "        newknotvec = copy(self.knotvector)\n        newknotvec.degree -= times\n        knots = newknotvec.knots if newknotvec.degree != 0 else None\n", "        newknotvec = copy(self.knotvector)\n        knots = newknotvec.knots if newknotvec.degree != times else None\n        newknotvec.degree -= times\n", "NODES-OF-NEW", "degree_decrease", "knots taken from the copy before its degree is lowered"),
+    V("twin-decrease-nodes-none-first", ["C14", "C06"], C, "        newknotvec = copy(self.knotvector)\n        newknotvec.degree -= times\n        knots = newknotvec.knots if newknotvec.degree != 0 else None\n", "        newknotvec = copy(self.knotvector)\n        newknotvec.degree -= times\n        knots = None if newknotvec.degree == 0 else newknotvec.knots\n", None, None, "conditional the other way round", twin=True),
     V("insert-divide-by-umax", ["C04"], H, "        one = knotvector[-1] - knotvector[0]\n", "        one = knotvector[-1]\n", "D", "one_knot_insert_once", "unit made from the last knot alone (0 for an interval ending at 0)", near=908),
     V("increase-in-place-kv", ["C06"], C, "        nodes = self.knotvector.knots\n        newnodes = times * nodes\n        newvector = self.knotvector + newnodes\n        oldvector = tuple(self.knotvector)\n        matrix = heavy.Operations.degree_increase(oldvector, times)\n", "        oldvector = tuple(self.knotvector)\n        matrix = heavy.Operations.degree_increase(oldvector, times)\n        newvector = KnotVector(self.knotvector)\n        newvector.degree += times\n", "SHARED-KV", "degree_increase", "the stored KnotVector object is elevated in place"),
 ]
